@@ -10,6 +10,7 @@ COUNT = [0]
 LIVE = [0]          # live tracked objects (conservation checks)
 CREATED = [0]
 CURRENT = [None]    # object under test (for re-entry actions)
+EPOCH = [0]         # incremented by reset(): finalizers of delegate objects that outlive their run must not log into the next one
 
 
 class E1(Exception):
@@ -35,6 +36,7 @@ def reset(plan=None):
         PLAN.update(plan)
     COUNT[0] = 0
     CURRENT[0] = None
+    EPOCH[0] += 1
 
 
 def make_exc(name, arg):
@@ -175,6 +177,7 @@ class It:
 def pygen(tag, n):
     """An uncompiled Python generator (delegation target)."""
     LOG.append(("pygen.start", tag))
+    ep = EPOCH[0]
     try:
         for i in range(n):
             try:
@@ -184,7 +187,8 @@ def pygen(tag, n):
                 LOG.append(("pygen.caught", tag, norm(e.args)))
                 yield ("pg-caught", tag)
     finally:
-        LOG.append(("pygen.finally", tag))
+        if ep == EPOCH[0]:
+            LOG.append(("pygen.finally", tag))
     return ("pgret", tag)
 
 
@@ -196,6 +200,7 @@ class Aw:
 
     def __await__(self):
         LOG.append(("aw.start", self.tag))
+        ep = EPOCH[0]
         try:
             for i in range(self.n):
                 x = yield ("aw", self.tag, i)
@@ -203,7 +208,8 @@ class Aw:
             if self.mode == "raise":
                 raise E2(("aw", self.tag))
         finally:
-            LOG.append(("aw.finally", self.tag))
+            if ep == EPOCH[0]:
+                LOG.append(("aw.finally", self.tag))
         return ("awret", self.tag)
 
 
